@@ -574,7 +574,7 @@ func (pc *PeerConnection) SetConfiguration(configuration Configuration) error { 
 				return &rtcerr.InvalidModificationError{Err: ErrModifyingCertificates}
 			}
 		}
-		pc.configuration.Certificates = configuration.Certificates
+		pc.configuration.Certificates = copyCertificates(configuration.Certificates)
 	}
 
 	// https://www.w3.org/TR/webrtc/#set-the-configuration (step #3.4)
@@ -641,7 +641,7 @@ func (pc *PeerConnection) SetConfiguration(configuration Configuration) error { 
 		}
 	}
 
-	pc.configuration.ICEServers = configuration.ICEServers
+	pc.configuration.ICEServers = copyICEServers(configuration.ICEServers)
 
 	return nil
 }
@@ -652,7 +652,11 @@ func (pc *PeerConnection) SetConfiguration(configuration Configuration) error { 
 // has been called with Configuration passed as its only argument.
 // https://www.w3.org/TR/webrtc/#dom-rtcpeerconnection-getconfiguration
 func (pc *PeerConnection) GetConfiguration() Configuration {
-	return pc.configuration
+	configuration := pc.configuration
+	configuration.ICEServers = copyICEServers(pc.configuration.ICEServers)
+	configuration.Certificates = copyCertificates(pc.configuration.Certificates)
+
+	return configuration
 }
 
 func (pc *PeerConnection) ID() string {
